@@ -63,6 +63,10 @@ def closed_form(mode, K):
         return {"nonneg": (-1, 1, (k - 1) // 2), "neg": (1, -1, k // 2)}         # a / K == (-a) / k
     if mode == "native":
         return {"nonneg": (sk, 1, 0), "neg": (-sk, -1, 0)}
+    if mode == "neg_inf":
+        if K > 0:
+            return {"nonneg": (1, 1, 0), "neg": (-1, -1, k - 1)}      # floor(a/k) = -trunc((-a + k-1)/k) for a < 0
+        return {"nonneg": (-1, 1, k - 1), "neg": (1, -1, 0)}
     return None
 
 
@@ -73,7 +77,7 @@ def evalform(f, a, K):
 
 def validate_closed_forms():
     n = 0
-    for mode in ("nearest", "tie", "native"):
+    for mode in ("nearest", "tie", "native", "neg_inf"):
         for K in list(range(-12, 13)) + [127, -128, 1000, -1001]:
             if K == 0:
                 continue
